@@ -94,6 +94,7 @@ __all__ = [
     'read_list',
     'kg_read',
     'kg_read_array',
+    'kg_read_data',
     'read_cond',
     'list_to_dict',
     'copy_lambda',
